@@ -5,7 +5,7 @@
 Require Extraction.
 Require Import ExtrOcamlBasic.
 From Coq Require Import List NArith ZArith.
-From SDB Require Import Base.Bytes Base.Assoc Params Model.Codec Model.Lock Model.Page Model.Pool Model.SqlRef Model.Catalog Model.Query Model.Wal Model.LogCodec Model.WalTrace Model.Sched Model.ReqMgr Model.Engine.
+From SDB Require Import Base.Bytes Base.Assoc Params Model.Codec Model.Lock Model.Page Model.Pool Model.SqlRef Model.Catalog Model.Query Model.Wal Model.LogCodec Model.WalTrace Model.Sched Model.ReqMgr Model.Engine Model.IndexWrap Model.Trace.
 
 Extraction Blacklist List String Int.
 
@@ -39,4 +39,8 @@ Extraction "sdbmodel.ml"
   rinit rinit_real rstep rrun enabled deadlock_schedule potential
   (* M4 row-level engine (C03 C07 C04) *)
   einit estep erun eouts iget ilookup heap_rids icols
+  (* M17 index wrapper (C17), M19 trace checkers (C19) *)
+  om_empty om_sortedb ixi_insert ixi_delete ixi_update ixi_scan_key ixi_range
+  ixf_insert ixf_delete ixf_update ixf_scan_key ixf_range ixs_insert ixs_delete ixs_update ixs_scan_key ixs_range
+  well_formed disciplined guard_of
   N.of_nat N.to_nat Z.of_N Z.to_N Z.compare N.compare.
